@@ -224,9 +224,9 @@ type Check struct {
 	Prop       string
 	Gen        func(ctx *Ctx, r *rng) []Case
 	Impl       func(ctx *Ctx, cases []Case) [][]string
-	Oracle     Oracle                             // spec on the implementation's own answers (may be nil)
+	Oracle     Oracle                               // spec on the implementation's own answers (may be nil)
 	CaseOracle func(c Case, impl []string) *Finding // whole-case spec (may be nil)
-	Compare    func(line string) bool             // which lines are compared with the model (nil = all)
+	Compare    func(line string) bool               // which lines are compared with the model (nil = all)
 	Nontrivial func(c Case, impl []string) bool
 	Rule       string
 	Theorems   []string // obligations: theorem names in GoitProofs
@@ -421,6 +421,7 @@ func runCheck(ctx *Ctx, ck *Check, auditPath, factsStatus, evidencePath string) 
 	// command-level correspondence: lines derived from the observed CLI transitions are answered by the
 	// Lean command model and compared with what the implementation did
 	derivedCompared, derivedAgree := 0, 0
+	derivedKinds := map[string]int{}
 	if len(derived) > 0 {
 		var mc []Case
 		for _, d := range derived {
@@ -432,6 +433,7 @@ func runCheck(ctx *Ctx, ck *Check, auditPath, factsStatus, evidencePath string) 
 				continue
 			}
 			derivedCompared++
+			derivedKinds[strings.SplitN(d.Line, " ", 2)[0]+" impl="+strings.SplitN(d.Impl, " ", 2)[0]]++
 			okk := mo[i][0] == d.Impl
 			detail := ""
 			if d.Verify != nil {
@@ -617,8 +619,9 @@ func runCheck(ctx *Ctx, ck *Check, auditPath, factsStatus, evidencePath string) 
 		"operation_outcomes":            answerKinds,
 		"history_step_outcomes":         histStats,
 		"command_transitions_compared_with_model": derivedCompared,
-		"exhaustive":                    ck.Exhaustive,
-		"facts_status":                  factsStatus,
+		"command_transitions_by_kind":             derivedKinds,
+		"exhaustive":                              ck.Exhaustive,
+		"facts_status":                            factsStatus,
 	}
 	ev := map[string]interface{}{
 		"property_id": ck.Prop,
